@@ -130,13 +130,6 @@ impl Park {
         }
     }
 
-    #[inline]
-    fn fast_wake_up(&self) {
-        if let Some(co) = self.wait_co.take() {
-            run_coroutine(co);
-        }
-    }
-
     /// park current coroutine with specified timeout
     /// if timeout happens, return Err(ParkError::Timeout)
     /// if cancellation detected, return Err(ParkError::Canceled)
@@ -210,7 +203,7 @@ impl EventSource for Park {
         let timeout_handle = timeout.map(|dur| get_scheduler().add_timer(dur, self.wait_co.clone()));
         self.set_timeout_handle(timeout_handle);
 
-        let _g = self.delay_drop();
+        let g = self.delay_drop();
 
         // register the coroutine
         self.wait_co.store(co);
@@ -218,7 +211,10 @@ impl EventSource for Park {
         // if the deadline has passed already the timer may have fired before the
         // coroutine was registered and found nobody to wake: time out right here
         if matches!(deadline, Some(d) if now() >= d) {
-            if let Some(mut co) = self.wait_co.take() {
+            let co = self.wait_co.take();
+            // the park is not used any more below, the coroutine may drop it
+            drop(g);
+            if let Some(mut co) = co {
                 set_co_para(&mut co, io::Error::new(ErrorKind::TimedOut, "timeout"));
                 run_coroutine(co);
             }
@@ -229,7 +225,15 @@ impl EventSource for Park {
         if self.state.load(Ordering::Acquire) {
             // here may have recursive call for subscribe
             // normally the recursion depth is not too deep
-            return self.fast_wake_up();
+            let co = self.wait_co.take();
+            // release the kernel flag before the coroutine runs on top of this
+            // frame: when it drops the park it waits for the flag, and a cancelled
+            // coroutine does that without yielding back to us
+            drop(g);
+            if let Some(co) = co {
+                run_coroutine(co);
+            }
+            return;
         }
 
         // register the cancel data
